@@ -5,6 +5,7 @@ use crate::props::c06::recipe_case;
 use crate::render::*;
 use crate::rng::Rng;
 use crate::wf::{self, Block, Item, Style};
+#[allow(unused_imports)] use crate::wf::Item::SoftBreak;
 use cooklang::error::{Severity, Stage};
 
 /// (name, text to plant, where: 0 = inside a step, 1 = own block appended, 2 = document prefix,
